@@ -6,7 +6,8 @@ J1  TLC: spec/Realloc.tla -- TotalOne, FinalGetsLarger, OthersUnchanged for the 
     FinalGetsLarger.
 J3  real variational_gamma(singletons_phased=False) calls with the mutation-count table
     snapshotted around rescale(); TLC (spec/ReallocTrace.tla) recomputes the expected counts
-    from the recorded blocks, final placements and fitted phases and compares.
+    from the recorded blocks, final placements and fitted phases and compares; the rescaling step is
+    then run once more on the returned fit object and judged by the same clauses.
 """
 
 import json
@@ -72,7 +73,11 @@ def run(ctx):
                         ctx.extra.setdefault("failed_calls", {})[f"{inp.name}/{sorted(kw.items())}"] = repr(call.exc)[:160]
                     continue
                 ev["tid"] = f"{inp.name}/rephase{rep}/{sorted(kw.items())}"
+                after2 = ev.pop("after2", None)
                 events.append(ev)
+                if after2 is not None:
+                    events.append(dict(ev, after=after2, tid=ev["tid"] + "/second-rescale"))
+                    ctx.count("second_rescale_steps_traced")
                 if ev["n_switched"] > 0:
                     ctx.nontriv(ev["tid"])
                 elif ev["sing"]:
